@@ -326,50 +326,7 @@ var rR20n = RuleRef{Name: "R20n", Doc: "a counter mirrors its table: Chan.numSub
 					c.Add("R20n", fnName(fn), construct, in.Pos(), false, "the counter is changed by something other than +1/-1 (a batch adjustment cannot be tied to the entries actually inserted or removed)")
 					continue
 				}
-				var isTable func(m ssa.Value) bool
-				isTable = func(m ssa.Value) bool {
-					// the table handed to a closure by the helper that runs it: update(key, func(items map[..]..) {...})
-					if prm, ok := m.(*ssa.Parameter); ok && prm.Parent() != nil && prm.Parent().Parent() != nil {
-						g := prm.Parent()
-						fab, argOnly := c.funcArgBindings()
-						if !argOnly[g] {
-							return false
-						}
-						pi := -1
-						for i, q := range g.Params {
-							if q == prm {
-								pi = i
-							}
-						}
-						okAll, any := true, false
-						for hp, gs := range fab {
-							bound := false
-							for _, x := range gs {
-								bound = bound || x == g
-							}
-							if !bound {
-								continue
-							}
-							for _, hb := range hp.Parent().Blocks {
-								for _, hi := range hb.Instrs {
-									if hc, ok := hi.(*ssa.Call); ok && hc.Call.Value == ssa.Value(hp) && pi >= 0 && pi < len(hc.Call.Args) {
-										any = true
-										if !isTable(hc.Call.Args[pi]) {
-											okAll = false
-										}
-									}
-								}
-							}
-						}
-						return okAll && any
-					}
-					ld, ok := m.(*ssa.UnOp)
-					if !ok || ld.Op != token.MUL {
-						return false
-					}
-					mf, ok := ld.X.(*ssa.FieldAddr)
-					return ok && namedOf(mf.X.Type()) == pair.mapType && fieldName(mf) == pair.mapField
-				}
+				isTable := func(m ssa.Value) bool { return c.isMirroredTable(m, pair) }
 				// the closest dominating comma-ok lookup of the table that decides the edge into this block's region
 				var gMap, gKey ssa.Value
 				gTruth, found := false, false
@@ -1151,3 +1108,48 @@ var rR20z = RuleRef{Name: "R20z", Doc: "pairs are applied left to right: an elem
 	c.Count("R20z_records_built_in_loops", n)
 	c.Min("R20z_records_built_in_loops", 1)
 }}
+
+// isMirroredTable: m is the table of the pair: a load of the map field, or the parameter of a closure whose only
+// runner hands it that load (update(key, func(items map[..]..) {...})).
+func (c *C) isMirroredTable(m ssa.Value, pair *counterPair) bool {
+	if prm, ok := m.(*ssa.Parameter); ok && prm.Parent() != nil && prm.Parent().Parent() != nil {
+		g := prm.Parent()
+		fab, argOnly := c.funcArgBindings()
+		if !argOnly[g] {
+			return false
+		}
+		pi := -1
+		for i, q := range g.Params {
+			if q == prm {
+				pi = i
+			}
+		}
+		okAll, any := true, false
+		for hp, gs := range fab {
+			bound := false
+			for _, x := range gs {
+				bound = bound || x == g
+			}
+			if !bound {
+				continue
+			}
+			for _, hb := range hp.Parent().Blocks {
+				for _, hi := range hb.Instrs {
+					if hc, ok := hi.(*ssa.Call); ok && hc.Call.Value == ssa.Value(hp) && pi >= 0 && pi < len(hc.Call.Args) {
+						any = true
+						if !c.isMirroredTable(hc.Call.Args[pi], pair) {
+							okAll = false
+						}
+					}
+				}
+			}
+		}
+		return okAll && any
+	}
+	ld, ok := m.(*ssa.UnOp)
+	if !ok || ld.Op != token.MUL {
+		return false
+	}
+	mf, ok := ld.X.(*ssa.FieldAddr)
+	return ok && namedOf(mf.X.Type()) == pair.mapType && fieldName(mf) == pair.mapField
+}
